@@ -14,6 +14,7 @@ import (
 	"os"
 	"os/exec"
 	"strings"
+	"syscall"
 	"time"
 
 	"github.com/mimiro-io/datahub/internal/server"
@@ -26,11 +27,21 @@ func child(dir string) {
 		fmt.Fprintln(os.Stderr, "bad case:", err)
 		os.Exit(2)
 	}
-	obs := server.VerifC05Run(c, dir)
+	obs, cleanup := server.VerifC05Run(c, dir)
 	b, _ := json.Marshal(obs)
 	os.Stdout.WriteString("@@OBS " + string(b) + "\n")
 	if obs.Outcome == "hang" {
 		// goroutines are stuck holding badger resources: leave without closing
+		server.VerifC05Cleanup(dir)
+		os.Exit(0)
+	}
+	// the observation is out; closing the store is not part of the property: bound it
+	done := make(chan struct{})
+	go func() { cleanup(); close(done) }()
+	select {
+	case <-done:
+	case <-time.After(30 * time.Second):
+		fmt.Fprintln(os.Stderr, "store.Close did not return within 30s; leaving")
 		server.VerifC05Cleanup(dir)
 		os.Exit(0)
 	}
@@ -63,9 +74,22 @@ func runCase(line []byte, cdir string) string {
 				res = fmt.Sprintf(`{"outcome":"died","detail":%q}`, fmt.Sprint(err)+" "+d)
 			}
 		case <-time.After(300 * time.Second):
-			_ = cmd.Process.Kill()
-			<-done
-			res = `{"outcome":"hang","detail":"child killed by the outer watchdog"}`
+			// dump the goroutine stacks of the child (SIGQUIT), then make sure it is gone
+			_ = cmd.Process.Signal(syscall.SIGQUIT)
+			select {
+			case <-done:
+			case <-time.After(10 * time.Second):
+				_ = cmd.Process.Kill()
+				<-done
+			}
+			d := se.String()
+			if i := strings.Index(d, "goroutine 1 ["); i >= 0 {
+				d = d[i:]
+			}
+			if len(d) > 6000 {
+				d = d[:6000]
+			}
+			res = fmt.Sprintf(`{"outcome":"hang","detail":%q}`, "child killed by the outer watchdog; stacks: "+d)
 		}
 	}
 	_ = os.RemoveAll(cdir)
@@ -94,7 +118,14 @@ func main() {
 		res[i] = make(chan string, 1)
 		go func(i int) {
 			sem <- struct{}{}
-			res[i] <- runCase(lines[i], fmt.Sprintf("%s/c%d", dir, i))
+			r := runCase(lines[i], fmt.Sprintf("%s/c%d", dir, i))
+			if strings.Contains(r, "child killed by the outer watchdog") {
+				// no observation was produced (the child reports hangs of the observed region itself):
+				// infrastructure failure outside the region under observation - run the case once more
+				fmt.Fprintln(os.Stderr, "case", i, "killed by the outer watchdog without an observation; retrying once:", r)
+				r = runCase(lines[i], fmt.Sprintf("%s/c%dr", dir, i))
+			}
+			res[i] <- r
 			<-sem
 		}(i)
 	}
